@@ -1,8 +1,11 @@
 package checks
 
 import (
+	"context"
 	"encoding/json"
 	"fmt"
+	"github.com/cenkalti/backoff/v4"
+	"time"
 
 	"github.com/gebn/bmc"
 	"github.com/gebn/bmc/pkg/dcmi"
@@ -21,6 +24,12 @@ func init() {
 		var c c16CS
 		json.Unmarshal(raw, &c)
 		k, msg, _ := c16CipherSuites(c)
+		return fmt.Sprintf("%s %s", k, msg), k != ""
+	}
+	Replayers["c16real"] = func(raw json.RawMessage) (string, bool) {
+		var c map[string][]byte
+		json.Unmarshal(raw, &c)
+		k, msg := c16Real(c["data"])
 		return fmt.Sprintf("%s %s", k, msg), k != ""
 	}
 	Replayers["c16dcmi"] = func(raw json.RawMessage) (string, bool) {
@@ -147,7 +156,7 @@ type c16DCMI struct {
 	Count    int  `json:"count"`
 	Page     int  `json:"page"`
 	Entity   int  `json:"entity"`   // which of the three entities holds the records
-	Family   int  `json:"family"`   // 0 IPMI IDs, 1 DCMI IDs only, 2 neither, 3 IPMI IDs answer with an error code
+	Family   int  `json:"family"`   // 0 IPMI IDs, 1 DCMI IDs only, 2 neither, 3 IPMI IDs answer with an error code, 5 the BMC does not answer requests naming IPMI IDs at all
 	OtherToo bool `json:"othertoo"` // the other two entities hold one record each
 	// ErrEnt: family 3 only: which standard entity answers with an error code,
 	// and ErrCode which one (0 = 0xC9)
@@ -170,7 +179,7 @@ func c16SensorInfo(c c16DCMI) (string, string, string) {
 		ids[i] = uint16(0x0100 + i*3)
 	}
 	ents := ipmiEnt
-	if c.Family == 1 || c.Family == 3 {
+	if c.Family == 1 || c.Family == 3 || c.Family == 5 {
 		ents = dcmiEnt
 	}
 	want := [3][]uint16{}
@@ -218,6 +227,14 @@ func c16SensorInfo(c c16DCMI) (string, string, string) {
 		}
 		if sends == c.BusyAt {
 			return []envAnswer{env.Code("node-busy", 0xC0)}
+		}
+		if c.Family == 5 {
+			// a DCMI 1.0-style BMC that ignores what it does not know: requests
+			// naming the IPMI entity IDs get no reply (the command then fails on
+			// the transport; the DCMI IDs follow on the same session)
+			if rxp := sideParseInSession(t, req); rxp != nil && rxp.Msg != nil && rxp.Msg.NetFn == 0x2c && len(rxp.Msg.Data) >= 3 && rxp.Msg.Data[2] < 0x40 {
+				return []envAnswer{env.LostReply()}
+			}
 		}
 		return []envAnswer{envHonest()}
 	}
@@ -278,7 +295,7 @@ func c16SensorInfo(c c16DCMI) (string, string, string) {
 			stdTotal += got
 		}
 	}
-	stdFailed := c.Family == 3 || c.Family == 4
+	stdFailed := c.Family == 3 || c.Family == 4 || c.Family == 5
 	wantDCMI := stdFailed || stdTotal == 0
 	if queriedDCMI != wantDCMI {
 		return "C16/dcmi/fallback", fmt.Sprintf("%+v: DCMI-specific entity IDs queried=%v, but the standard IDs yielded %d record IDs (error=%v)", c, queriedDCMI, stdTotal, stdFailed), ""
@@ -288,6 +305,65 @@ func c16SensorInfo(c c16DCMI) (string, string, string) {
 	}
 	return "", "", "standard-entity-ids-used"
 }
+
+// c16Real: cipher-suite discovery over the library's real transport and a
+// loopback socket must report what it reports over the in-memory transport
+// (replies to different list indexes may be byte-identical: the chunks carry
+// no index).
+func c16Real(data []byte) (string, string) {
+	cfg := defaultConfig()
+	cfg.CipherSuiteData = data
+	render := func(recs []ipmi.CipherSuiteRecord, err error) string { return fmt.Sprintf("%v %v", recs, err) }
+	w := newWorld(cfg, nil, nil)
+	var want string
+	if p := guard(func() { want = render(bmc.RetrieveSupportedCipherSuites(w.Ctx, w.Conn)) }); p != "" {
+		return "C16/real/panic", p
+	}
+	backoff.VerifSleep, backoff.VerifNow = nil, nil
+	u, err := newUDPBMC(cfg)
+	if err != nil {
+		return "C16/real/harness", err.Error()
+	}
+	defer u.close()
+	conn, err := bmc.DialV2(u.addr(), bmc.WithTimeout(300*time.Millisecond))
+	if err != nil {
+		return "C16/real/harness", err.Error()
+	}
+	defer conn.Close()
+	ctx, cancel := context.WithTimeout(context.Background(), 3*time.Second)
+	defer cancel()
+	got := render(bmc.RetrieveSupportedCipherSuites(ctx, conn))
+	if got != want {
+		return "C16/real/differs-from-in-memory", fmt.Sprintf("record data % x: over a real socket discovery reports %s; over the in-memory transport %s", data, got, want)
+	}
+	return "", ""
+}
+
+// sideParseInSession decrypts an in-session request with the keys of the
+// transport's BMC without letting the BMC see it (the menu decides before).
+func sideParseInSession(t *envTransport, req []byte) *ref.Rx {
+	for _, s := range t.BMC.Sessions {
+		if !s.Active || s.K2 == nil {
+			continue
+		}
+		p, err := ref.ParsePacket(req, s.IntegN)
+		if err != nil || !p.Encrypted {
+			continue
+		}
+		plain, _, err := ref.AESDecrypt(s.K2, p.Payload)
+		if err != nil {
+			continue
+		}
+		m, err := ref.ParseMsg(plain)
+		if err != nil {
+			continue
+		}
+		return &ref.Rx{Msg: m, Sess: s}
+	}
+	return nil
+}
+
+func cfgDefaultSuites() []byte { return defaultConfig().CipherSuiteData }
 
 // aliases so this file reads naturally
 type envTransport = envT
@@ -476,6 +552,41 @@ func runC16(r *rep.R) {
 				for at := 1; at <= 12; at++ {
 					doD(c16DCMI{Count: cnt, Page: page, Entity: at % 3, Family: fam, OtherToo: true, BusyAt: at})
 				}
+			}
+		}
+	}
+	// over real sockets: lists whose neighbouring 16-byte chunks are byte-identical
+	four := ref.CSRecord{ID: 7, Auth: 1, Integs: []byte{1}}
+	chunk := csData(four, four, four, four)
+	for vi, data := range [][]byte{
+		cfgDefaultSuites(),
+		cat(chunk, chunk, csData(ref.CSRecord{ID: 3, Auth: 1})),
+		cat(chunk, chunk),
+		cat(chunk, chunk, chunk, csData(csRec3)),
+		cat(csData(csRec17), chunk[:11], chunk, chunk),
+	} {
+		idx++
+		if !r.Mine(idx) {
+			continue
+		}
+		k, msg := c16Real(data)
+		r.Eval(rep.H("real", vi), true)
+		r.Trace()
+		if k != "" {
+			if k2, _ := c16Real(data); k2 != k {
+				r.Count("real_socket_mismatch_not_reproduced", 1)
+				continue
+			}
+			r.Outcome("violation")
+			r.Violate(k, msg, "c16real", map[string][]byte{"data": data}, nil)
+		} else {
+			r.Outcome("list-complete-and-ordered")
+		}
+	}
+	for _, cnt := range []int{0, 1, 3, 9} {
+		for _, page := range []int{1, 4, 8} {
+			for ent := 0; ent < 3; ent++ {
+				doD(c16DCMI{Count: cnt, Page: page, Entity: ent, Family: 5, OtherToo: true})
 			}
 		}
 	}
